@@ -33,6 +33,10 @@ const ns = "did:sidetree"
 type Case struct {
 	Code uint64    `json:"code"`
 	Ops  []gen.QOp `json:"ops"`
+	// Poison, if present, is a batch handed to the same (long-lived) handler first: a prefix of Ops followed by a
+	// request that cannot be parsed, so that the handler rejects it as a whole. Its outcome is not judged (it must
+	// not panic); the batch under test comes afterwards, as the retry on a real node would.
+	Poison []gen.QOp `json:"poison,omitempty"`
 }
 
 func init() {
@@ -77,6 +81,15 @@ func evalCase(c *Case) (string, string) {
 	var queued []*operation.QueuedOperation
 	for _, o := range c.Ops {
 		queued = append(queued, &operation.QueuedOperation{Type: operation.Type(o.Type), OperationRequest: o.Request, UniqueSuffix: o.Suffix, Namespace: ns, AnchorOrigin: o.QueuedAO})
+	}
+	if len(c.Poison) > 0 {
+		var pq []*operation.QueuedOperation
+		for _, o := range c.Poison {
+			pq = append(pq, &operation.QueuedOperation{Type: operation.Type(o.Type), OperationRequest: o.Request, UniqueSuffix: o.Suffix, Namespace: ns, AnchorOrigin: o.QueuedAO})
+		}
+		if pn := ev.Catch(func() { _, _ = prepare(v, pq) }); pn != "" {
+			return "C13/panic", "PrepareTxnFiles panicked on a batch holding an unparseable request: " + pn
+		}
 	}
 	var info *protocolInfo
 	var err error
@@ -211,10 +224,17 @@ func reqSetOf(c *Case, idx []int) string {
 }
 
 func TestBatchRoundTrip(t *testing.T) {
-	ev.Rule(chk, "rapid: batches of 1-40 valid queued operations over 1-6 DIDs, or (one in four) over 7-40 DIDs so that the files themselves carry up to 40 operations, half of those with one shared document template (highly compressible chunk files): any mix and order of the four types, repeated suffixes (2+ operations for one DID), deactivate-only, update-only, create-only, single-operation batches, operations the intake time validator reports as expired, anchor origins of several JSON types, all key types and both hash algorithms, deltas over all eight patch actions; real OperationHandler and OperationProvider over one in-memory CAS with gzip; oracle: read-back = first non-expired queued operation per suffix, ordered create / recover / update / deactivate (any order inside a group), same type, suffix, JSON-equal request, embedded anchor origin for create / recover; anchor string count == operations read back; references, additional and expired partition the queued multiset; non-trivial = repeated suffix, or >= 3 types, or an expired operation")
+	ev.Rule(chk, "rapid: batches of 1-40 valid queued operations over 1-6 DIDs, or (one in four) over 7-40 DIDs so that the files themselves carry up to 40 operations, half of those with one shared document template (highly compressible chunk files): any mix and order of the four types, repeated suffixes (2+ operations for one DID), deactivate-only, update-only, create-only, single-operation batches, operations the intake time validator reports as expired, anchor origins of several JSON types, all key types and both hash algorithms, deltas over all eight patch actions; real OperationHandler and OperationProvider over one in-memory CAS with gzip; one time in four the same handler object has just rejected a batch made of a prefix of the same operations and an unparseable request; oracle: read-back = first non-expired queued operation per suffix, ordered create / recover / update / deactivate (any order inside a group), same type, suffix, JSON-equal request, embedded anchor origin for create / recover; anchor string count == operations read back; references, additional and expired partition the queued multiset; non-trivial = repeated suffix, or >= 3 types, or an expired operation")
 	ev.Rapid(t, chk, 300, 4000, func(t *rapid.T) {
 		code := rapid.SampledFrom([]uint64{asm.SHA256, asm.SHA512}).Draw(t, "hash")
 		c := &Case{Code: code, Ops: gen.Batch(t, code, 40, true, "c13")}
+		if rapid.IntRange(0, 3).Draw(t, "rejectedBatchFirst") == 0 {
+			// the long-lived handler has just rejected a batch: some of the same operations followed by a request it
+			// cannot parse
+			k := rapid.IntRange(1, len(c.Ops)).Draw(t, "poisonPrefix")
+			c.Poison = append(append([]gen.QOp{}, c.Ops[:k]...), gen.QOp{Type: rapid.SampledFrom([]string{"update", "recover", "deactivate", "create"}).Draw(t, "poisonType"), Suffix: "EiPoisonSuffix",
+				Request: []byte(rapid.SampledFrom([]string{`{"type":"update"}`, `not json`, `{"type":"update","didSuffix":"x","revealValue":"y","signedData":"a.b.c","delta":{}}`, `{}`}).Draw(t, "poisonRequest"))})
+		}
 		kind, msg := evalCase(c)
 		types, suffixes, rep, exp := map[string]bool{}, map[string]int{}, false, false
 		for _, o := range c.Ops {
